@@ -152,9 +152,24 @@ def check_entry_points(ctx):
     ok = bool(calls) and all(len(c.args) >= 3 and isinstance(c.args[2], ast.Constant) and c.args[2].value is False for c in calls)
     ctx.check('R7.3', ok, cp.module, cp.qualname, f'{len(calls)} _get_one(..., False, ...) calls',
               'FST.copy must call _get_one with the literal cut=False', cp.lineno)
-    trys = [n for n in walk_no_nested(cp.node) if isinstance(n, ast.Try)]
-    ok = len(trys) == 1 and trys[0].finalbody and any(isinstance(x, ast.Call) and call_name(x) == 'FST' and any(kw.arg == 'tmake' for kw in x.keywords)
-                                                        for s in trys[0].finalbody for x in ast.walk(s))
+    def restores_in_finally(fn_node):
+        trys_ = [n for n in walk_no_nested(fn_node) if isinstance(n, ast.Try)]
+        return len(trys_) == 1 and bool(trys_[0].finalbody) and any(
+            isinstance(x, ast.Call) and call_name(x) == 'FST' and any(kw.arg == 'tmake' for kw in x.keywords)
+            for s_ in trys_[0].finalbody for x in ast.walk(s_))
+    ok = restores_in_finally(cp.node)
+    if not ok:
+        # the temporary re-parenting as a context manager: `with <cm>(self) as tmpf:` where <cm> is a @contextmanager generator of the
+        # package that yields inside a try whose finally re-creates the root
+        for w in [n for n in walk_no_nested(cp.node) if isinstance(n, ast.With)]:
+            for it in w.items:
+                c = it.context_expr
+                if isinstance(c, ast.Call) and isinstance(c.func, ast.Name):
+                    for g in ctx.repo.find_funcs(cp.module, c.func.id):
+                        decos = [norm(d) for d in getattr(g.node, 'decorator_list', [])]
+                        if any(d.endswith('contextmanager') for d in decos) and restores_in_finally(g.node) and \
+                                any(isinstance(y, ast.Yield) for t_ in walk_no_nested(g.node) if isinstance(t_, ast.Try) for b_ in t_.body for y in ast.walk(b_)):
+                            ok = True
     ctx.check('R7.3', ok, cp.module, cp.qualname, 'root copy: try ... finally: FST(ast, lines, None, from_=tmpf, ..., tmake=False)',
               'the temporary re-parenting of a root statement must be undone in a finally clause, or a failed copy leaves the root detached', cp.lineno)
     g = ns['get'][0]
